@@ -143,20 +143,26 @@ def ringCase (a : List Int) (res : List Int) (line : String) : String :=
         | some (bits, sgn) => (fun e => if sgn then decide (-(2 ^ (bits - 1)) ≤ e ∧ e < 2 ^ (bits - 1)) else decide (0 ≤ e ∧ e < 2 ^ bits))
         | none => canonical q
     let nz := fn == 3 || fn == 5 || fn == 7
+    -- fn 8: `Ring::RandIter(F, seed, size)`; fn 9: the same iterator, copy-assigned to one built with another size (the harness reports
+    -- `eq = 0` when the assigned-to iterator does not continue like the original).  `ModularRandIter` stores the size and never reads
+    -- it (fn 0), `GIV_randIter` (GFqDom, GF2) is fn 1, `GeneralRingRandIter` (ZRing) is fn 2
+    let fnM : Int := if fn == 8 || fn == 9 then (if t == 0x20 || t == 0x21 || t == 0x30 then 1 else if 0x31 ≤ t && t ≤ 0x39 then 2 else 0) else fn
     -- eq: the sequence drawn into pre-filled destinations equals the one drawn into zeroed destinations by an iterator that is
     -- replaced by a copy of itself half-way (destination independence, reproducibility from the seed, copy semantics)
     let specOk := eq == 1 && decide (es.length = n.toNat) && es.all canon && (!nz || es.all (· != 0))
     let olds := List.replicate n.toNat (junkOf t)
     let model : Option (Option (List Int)) :=
       match modSty t with
-      | some (bits, sgn) => some ((modRun bits sgn p fn.toNat size loopFuel olds (givInit seed)).map (·.1))
+      | some (bits, sgn) => some ((modRun bits sgn p fnM.toNat size loopFuel olds (givInit seed)).map (·.1))
       | none =>
-        if t == 0x20 then some ((gfqRun 32 q fn.toNat size loopFuel olds (givInit seed)).map (·.1))
-        else if t == 0x21 then some ((gfqRun 64 q fn.toNat size loopFuel olds (givInit seed)).map (·.1))
+        if t == 0x20 then some ((gfqRun 32 q fnM.toNat size loopFuel olds (givInit seed)).map (·.1))
+        else if t == 0x21 then some ((gfqRun 64 q fnM.toNat size loopFuel olds (givInit seed)).map (·.1))
         else if t == 0x1a || t == 0x1b then some ((ruRingRun 7 p fn.toNat loopFuel olds (givInit seed)).map (·.1))
-        else if t == 0x30 then some ((gf2Run fn.toNat loopFuel olds (givInit seed)).map (·.1))
+        else if t == 0x30 then some ((gf2Run fnM.toNat loopFuel olds (givInit seed)).map (·.1))
+        -- Modular<Integer>::random(g, r) / nonzerorandom(g, r): `init(r, g())` = `r = g(); r %= p` (its RandIter draws from GMP: spec only)
+        else if t == 0x18 && (fn == 4 || fn == 5) then some ((rRun (fltRing p) fn.toNat size loopFuel olds (givInit seed)).map (·.1))
         else match ringDrawOf t p with
-          | some R => some ((rRun R fn.toNat size loopFuel olds (givInit seed)).map (·.1))
+          | some R => some ((rRun R fnM.toNat size loopFuel olds (givInit seed)).map (·.1))
           | none => none
     match model with
     | none => verdict specOk true "speconly" line                 -- ring type whose `init` is not modelled here: implementation vs specification
